@@ -57,4 +57,20 @@ theorem remove_all_ok (norm : Point → Point) (g : DSelf) :
   · simp [DatabaseImpl.remove_all, h1, bind, pure, Except.pure]
   · simpa [State.step] using h2
 
+/-- `TinyFlux.all(sorted)` as translated: every stored row, in a stable time order when asked for — what the Model's `step`
+    answers for `.all sorted` (the `read_op` decorator is `readOp`, which does not touch storage) -/
+theorem all_ok (norm : Point → Point) (g : DSelf) (sorted : Bool) :
+    DatabaseImpl.all g sorted = .ok (if sorted then State.sortByTime g._storage._items else g._storage._items)
+    ∧ ((absDB norm g).step (.all sorted)).2
+        = .points (if sorted then State.sortByTime g._storage._items else g._storage._items) := by
+  have hst : ((absDB norm g).readOp).storage = g._storage._items := by
+    simp only [State.readOp, absDB]
+    by_cases h : (g._auto_index && !(abs g._index).valid) = true <;> simp [h]
+  constructor
+  · cases sorted
+    · simp [DatabaseImpl.all, Storage.read, truthy, bind, pure, Except.pure, Except.bind]
+    · simp [DatabaseImpl.all, Storage.read, truthy, sortedBy, State.sortByTime, timeOf, bind, pure, Except.pure, Except.bind]
+      rfl
+  · simp only [State.step, hst]
+
 end TinyFlux.Mirror
